@@ -919,6 +919,13 @@ impl Visitor<Diagnostic> for LibraryRenderer {
         self.write_ws(":");
         self.newline();
 
+        self.indent();
+        for elem in node.initial_step.action_associations.iter() {
+            self.visit_action_association(elem)?;
+            self.newline();
+        }
+        self.outdent();
+
         self.write_ws("END_STEP");
         self.newline();
         self.newline();
